@@ -2097,7 +2097,11 @@ where
 
                     if let Some(name) = group_name {
                         // The current alternative path, from the whole pattern inwards.
-                        let segments = enclosing.clone();
+                        // A pattern nested deeper than MAX_NESTING_DEPTH is rejected by the parser
+                        // proper, so do not record more of the path than that: cloning the whole
+                        // stack for every name is quadratic in the nesting depth.
+                        let keep = enclosing.len().min(MAX_NESTING_DEPTH as usize + 2);
+                        let segments = enclosing[..keep].to_vec();
 
                         // Record this location.
                         named_group_locations
